@@ -157,16 +157,51 @@ def untested_path(body, chain, goal, tests):
     return False
 
 
+def correlated_nonnull(b, chain, goal, null_edges, tests):
+    """`let cap = if p.is_null() { 0 } else { p.deref().len() }; if cap != 0 { p.deref() }`: a local v whose every definition is either a
+    constant c0 under the null edge of a test of a holder of the chain, or lies under the non-null edge of such a test, and a dominating
+    comparison at the dereference that shows v != c0 -- the dereference is only reached with the pointer tested non-null"""
+    from .affine import ne0_at, Aff
+    holders = {def_local(b, pt) for pt in chain if not (isinstance(pt, tuple) and pt and pt[0] == "arg")}
+    holders.discard(None)
+    for h in holders:
+        ne, nn = null_edges.get(h), tests.get(h)
+        if not ne or not nn:
+            continue
+        for v in range(1, len(b.locals)):
+            ds = [d for d in b.defs.get(v, []) if d[1] in ("assign", "call", "arg")]
+            if len(ds) < 2:
+                continue
+            consts, okv = set(), True
+            for pt, kind, data in ds:
+                p0 = Point(pt[0], pt[1])
+                if kind == "assign" and "use" in data["rv"] and "int" in data["rv"]["use"] and dominated_by_edge(b, p0, list(ne)):
+                    consts.add(data["rv"]["use"]["int"])
+                elif kind in ("assign", "call") and dominated_by_edge(b, p0, list(nn)):
+                    continue
+                else:
+                    okv = False
+                    break
+            if not okv or len(consts) != 1:
+                continue
+            c0 = next(iter(consts))
+            if ne0_at(b, goal, Aff.sym(("phi", v)) - Aff.const(c0)) is not None:
+                return True
+    return False
+
+
 def rule_t1(ctx, facts):
     n_deref = 0
     for b in facts.bodies:
         fl = flow(b)
         tests = {}
         sentinel_tests = {}
+        null_edges = {}
         for blk in range(len(b.blocks)):
             c = cond_of(b, blk)
             if c and c["kind"] == "is_null" and c["arg"] is not None:
                 tests.setdefault(c["arg"], set()).add((blk, c["false"]))
+                null_edges.setdefault(c["arg"], set()).add((blk, c["true"]))
             elif c and c["kind"] == "ptr_eq" and c["a"] is not None and c["b"] is not None:
                 # T1b sentinel-bounded walk: `cursor != s` where s was copied from the cursor earlier in the same walk (s was
                 # dereferenced then, so it is a live node of the list and is met before the null terminator)
@@ -221,6 +256,9 @@ def rule_t1(ctx, facts):
                     if not untested_path(b, ch, c.point, merged):
                         bad = False
                         how = "sentinel-bounded walk: cursor compared with a sentinel that was copied from the cursor earlier in the same list"
+                if bad and correlated_nonnull(b, ch, c.point, null_edges, tests):
+                    bad = False
+                    how = "a value set to a constant on the null edge is shown to differ from it"
                 if not bad:
                     continue
                 done.add((ld.b, lab))
@@ -565,14 +603,26 @@ def rule_t5(ctx, facts, rule="T5"):
         return
     b = nx[0]
     fl = flow(b)
-    loads = [c for c in b.calls if is_link_load(c) == "load" and ("node::Node", "next") in receiver_field(b, c, 0) and not b.is_cleanup(c.b)]
-    if not loads:
+    loads = [c for c in b.calls if is_link_load(c) == "load" and not b.is_cleanup(c.b)
+             and receiver_field(b, c, 0) & {("node::Node", "next"), ("node::TreeBin", "first")}]
+    if not any(("node::Node", "next") in receiver_field(b, c, 0) for c in loads):
         ctx.fail_closed("%s: NodeIter::next does not load Node.next" % rule)
         return
     rets = set(return_points(b))
     bins = {c.point for c in b.calls if is_link_load(c) == "bin"}
+
+    def somes_of(holders):
+        out = set()
+        for bi, blk in enumerate(b.blocks):
+            for si, st in enumerate(blk["stmts"]):
+                if st["k"] == "assign" and "agg" in st["rv"] and st["rv"]["agg"].get("variant") == "Some" and st["rv"]["ops"]:
+                    r = op_root(st["rv"]["ops"][0])
+                    if r is not None and r in holders:
+                        out.add(Point(bi, si))
+        return out
     for c in loads:
         N = c.dst_local()
+        what = "successor" if ("node::Node", "next") in receiver_field(b, c, 0) else "first node of a tree bin"
         holders = fl.flows_to(N)
         edges = []
         for blk in range(len(b.blocks)):
@@ -585,26 +635,55 @@ def rule_t5(ctx, facts, rule="T5"):
             elif cd["kind"] == "is_none" and N in fl.roots(cd["arg"], through_agg=False)[1]:
                 edges.append((blk, cd["false"]))
         if not edges:
-            ctx.inst(rule, b, "successor yielded", c.span, False, "the successor loaded at %s is never tested for null" % c.span)
+            ctx.inst(rule, b, "%s yielded" % what, c.span, False, "the %s loaded at %s is never tested for null" % (what, c.span))
             continue
-        somes = set()
-        for bi, blk in enumerate(b.blocks):
-            for si, st in enumerate(blk["stmts"]):
-                if st["k"] == "assign" and "agg" in st["rv"] and st["rv"]["agg"].get("variant") == "Some" and st["rv"]["ops"]:
-                    r = op_root(st["rv"]["ops"][0])
-                    if r is not None and r in holders:
-                        somes.add(Point(bi, si))
+        somes = somes_of(holders)
         starts = [Point(tgt, 0) for _, tgt in edges]
         r = reach(b, starts, avoid=somes, unwind=False)
         lost = [p for p in rets if p in r] + [p for p in bins if p in r]
-        ctx.inst(rule, b, "successor yielded", c.span, not lost,
-                 "every path from the non-null successor to a return or the next bin wraps it in Some (%d site(s))" % len(somes) if not lost else
-                 "a non-null successor loaded at %s can reach %s without being wrapped in Some: what is yielded next depends on something other than "
-                 "the link being non-null (e.g. an accessor that is None for tree nodes), so the rest of a bin is skipped" % (c.span, b.span_at(lost[0])))
+        ctx.inst(rule, b, "%s yielded" % what, c.span, not lost,
+                 "every path from the non-null %s to a return or the next bin wraps it in Some (%d site(s))" % (what, len(somes)) if not lost else
+                 "a non-null %s loaded at %s can reach %s without being wrapped in Some: what is yielded next depends on something other than "
+                 "the link being non-null (e.g. an accessor that is None for tree nodes), so the rest of a bin is skipped" % (what, c.span, b.span_at(lost[0])))
+    # the head of a list bin is yielded: on the `Node` arm of the match on the bin just read
+    variants = [v["name"] for v in facts.adts.get("node::BinEntry", {}).get("variants", [])]
+    n_heads = 0
+    for c in b.calls:
+        if is_link_load(c) != "bin" or b.is_cleanup(c.b) or "Node" not in variants:
+            continue
+        holders = fl.flows_to(c.dst_local())
+        somes = somes_of(holders)
+        for blk in range(len(b.blocks)):
+            t = b.term(blk)
+            if t["k"] != "switch":
+                continue
+            dl = op_local(t["on"])
+            isd = False
+            for pt, kind, data in b.defs.get(dl, []) if dl is not None else []:
+                if kind == "assign" and "discr" in data["rv"] and data["rv"]["discr"]["local"] in holders:
+                    ts = b.ty(data["rv"]["discr"]["local"]).get("s", "")
+                    if "node::BinEntry" in ts and "Option" not in ts:       # the kind of the entry, not `e.is_some()`
+                        isd = True
+            if not isd:
+                continue
+            tg = {int(v): tb for v, tb in t["targets"]}
+            arm = tg.get(variants.index("Node"), t["otherwise"])
+            n_heads += 1
+            r = reach(b, [Point(arm, 0)], avoid=somes, unwind=False)
+            lost = [p for p in rets if p in r] + [p for p in bins if p in r]
+            ctx.inst(rule, b, "head of a list bin yielded", t["span"], not lost,
+                     "the Node arm of the match on the bin wraps the head in Some" if not lost else
+                     "the head of a list bin read at %s can reach %s without being yielded" % (c.span, b.span_at(lost[0])))
+    if n_heads < 1:
+        ctx.fail_closed("%s: no match on the kind of the bin read by NodeIter::next found" % rule)
 
 
 def run(ctx, facts):
-    ctx.rule("T5", "NodeIter::next yields the successor of the last node whenever the link is non-null, whatever kind of entry it is", floor=1)
+    ctx.rule("T6", "the next pointer of a node being removed is not written: an iterator standing on it still reaches the rest of the bin "
+                   "(rule L12 of C01)", floor=3)
+    from .rules_c01 import rule_l12
+    rule_l12(ctx, facts, rule="T6")
+    ctx.rule("T5", "NodeIter::next yields the successor of the last node, the first node of a tree bin and the head of a list bin whenever they are there, whatever kind of entry they are", floor=3)
     rule_t5(ctx, facts)
     ctx.rule("T3", "traverser index provenance: sibling-bin stride = saved length of the table the marker was found in; frames restore what was saved; "
                    "base stepping by base_size / base_index", floor=14)
